@@ -12,6 +12,9 @@ package main
 //                              per move; the raft groups follow the metadata meanwhile)
 //   Snapshot(w,p)           -> coordinator w re-reads its copy ("snap") of partition p's record
 //   ChangeFactor(r)         -> ChangeNamespaceMetaParam (replication factor)
+//   MarkNodeRemoving(n)     -> MarkNodeAsRemoving (the operator takes a data node out of the cluster)
+//   MoveOff(w)              -> processRemovingNodes (one round; without -balance it is only called when
+//                              no replica needs the add-and-wait path, which sleeps 5 s)
 //   NodeDown/NodeUp/SyncLost/SyncBack/RaftJoin(p,n)/RaftLeave(p,n) -> the scripted environment
 // over the in-memory register (cluster.VerifMemRegister, compare-and-swap on the epoch) and
 // loopback HTTP stubs that answer /cluster/israftsynced and /cluster/members as scripted.
@@ -285,6 +288,51 @@ func (d *coDrv) setNodesAll() {
 	}
 }
 
+// removing returns the node numbers in coordinator w's removing-node table.
+func (d *coDrv) removing(w int) map[int]string {
+	out := map[int]string{}
+	for id, st := range pdnode_coord.VerifRemovingNodes(d.pds[w]) {
+		out[d.num(id)] = st
+	}
+	return out
+}
+
+func (d *coDrv) logRemoving(w int) {
+	rm := d.removing(w)
+	ns := make([]int, 0, len(rm))
+	for n := range rm {
+		ns = append(ns, n)
+	}
+	sort.Ints(ns)
+	sts := make([]string, 0, len(ns))
+	for _, n := range ns {
+		sts = append(sts, rm[n])
+	}
+	d.emit(trace.M{"ev": "rmstates", "ns": ns, "sts": sts})
+}
+
+// withFollow runs f while the raft groups follow the real metadata (for the real functions
+// that sleep and then wait for readiness).
+func (d *coDrv) withFollow(f func()) {
+	stop := make(chan struct{})
+	var wg sync.WaitGroup
+	wg.Add(1)
+	go func() {
+		defer wg.Done()
+		for {
+			select {
+			case <-stop:
+				return
+			case <-time.After(300 * time.Millisecond):
+				d.follow()
+			}
+		}
+	}()
+	f()
+	close(stop)
+	wg.Wait()
+}
+
 // placeIn logs the previous layout the coordinator hands to the placement function.
 func (d *coDrv) placeIn(w int) {
 	l, cerr := pdnode_coord.VerifCurrentPartitionNodes(d.pds[w], coNS)
@@ -524,6 +572,61 @@ func (d *coDrv) step(name string, args []string) {
 				}
 			}
 		}
+	case "MarkNodeRemoving":
+		n := argN(0)
+		if n < 1 || n > d.N {
+			return
+		}
+		if _, ok := d.removing(0)[n]; ok {
+			return
+		}
+		d.call("marknode", "cur", 0, 0, n, func() string {
+			if err := d.pds[0].MarkNodeAsRemoving(d.nodes[n-1].info.ID); err != nil {
+				return err.Error()
+			}
+			return ""
+		})
+		if _, ok := d.removing(0)[n]; ok {
+			d.emit(trace.M{"ev": "rmmark", "n": n})
+			d.stats["nodes_marked_removing"]++
+		}
+	case "MoveOff":
+		w := argN(0) - 1
+		if w < 0 || w >= d.W || len(d.removing(w)) == 0 {
+			return
+		}
+		slowNeeded := false
+		rm := d.removing(w)
+		for p := 0; p < d.P; p++ {
+			cur := d.current(p)
+			for _, id := range cur.RaftNodes {
+				if _, ok := rm[d.num(id)]; ok && len(cur.GetISR()) <= cur.Replica {
+					slowNeeded = true
+				}
+			}
+		}
+		if slowNeeded && (!d.realBalance || d.nbal >= 3) {
+			d.emit(trace.M{"ev": "call", "op": "moveoff", "src": "cur", "w": w + 1, "p": 0, "n": 0, "err": "skipped: would need the add-and-wait path (5 s sleeps)"})
+			return
+		}
+		if slowNeeded {
+			d.nbal++
+		}
+		d.placeIn(w)
+		d.emit(trace.M{"ev": "begin", "op": "moveoff"})
+		run := func() {
+			d.call("moveoff", "cur", w, 0, 0, func() string {
+				pdnode_coord.VerifProcessRemovingNodes(d.pds[w])
+				return ""
+			})
+		}
+		if slowNeeded {
+			d.withFollow(run)
+		} else {
+			run()
+		}
+		d.emit(trace.M{"ev": "end", "op": "moveoff"})
+		d.logRemoving(w)
 	case "Migrate":
 		w, p, ok := wp(0)
 		if !ok {
@@ -533,7 +636,8 @@ func (d *coDrv) step(name string, args []string) {
 		c := d.copyOf(w, p, src)
 		d.placeIn(w)
 		d.call("migrate", src, w, p, 0, func() string {
-			return coErr(pdnode_coord.VerifMigrate(d.pds[w], c, d.aliveMap(), d.epochs[w]))
+			// as doCheckNamespaces does: the live nodes without those marked for removal
+			return coErr(pdnode_coord.VerifMigrate(d.pds[w], c, pdnode_coord.VerifCurrentNodes(d.pds[w]), d.epochs[w]))
 		})
 	case "PlanAdd":
 		w, p, ok := wp(0)
@@ -547,6 +651,9 @@ func (d *coDrv) step(name string, args []string) {
 			// is not yet surplus and reports full readiness
 			if !d.alive[n] {
 				return "skipped: node not alive"
+			}
+			if _, rm := d.removing(w)[n]; rm {
+				return "skipped: node is being removed"
 			}
 			if len(coISR(c)) > c.Replica {
 				return "skipped: already surplus"
@@ -602,29 +709,15 @@ func (d *coDrv) step(name string, args []string) {
 		d.nbal++
 		// the real rebalanceNamespace sleeps 5 s after adding a replica and then waits for it to
 		// be ready: meanwhile the raft groups follow the metadata (only "more ready" changes)
-		stop := make(chan struct{})
-		var wg sync.WaitGroup
-		wg.Add(1)
-		go func() {
-			defer wg.Done()
-			for {
-				select {
-				case <-stop:
-					return
-				case <-time.After(300 * time.Millisecond):
-					d.follow()
-				}
-			}
-		}()
 		d.placeIn(w)
 		d.emit(trace.M{"ev": "begin", "op": "balance"})
-		d.call("balance", "cur", w, 0, 0, func() string {
-			pdnode_coord.VerifSetClusterStable(d.pds[w], true)
-			moved, all := pdnode_coord.VerifRebalanceRound(d.pds[w])
-			return fmt.Sprintf("moved=%v balanced=%v", moved, all)
+		d.withFollow(func() {
+			d.call("balance", "cur", w, 0, 0, func() string {
+				pdnode_coord.VerifSetClusterStable(d.pds[w], true)
+				moved, all := pdnode_coord.VerifRebalanceRound(d.pds[w])
+				return fmt.Sprintf("moved=%v balanced=%v", moved, all)
+			})
 		})
-		close(stop)
-		wg.Wait()
 		d.emit(trace.M{"ev": "end", "op": "balance"})
 	}
 }
@@ -721,6 +814,10 @@ func coordsim(args []string) error {
 	for i, b := range behaviours {
 		if err := d.begin(fmt.Sprintf("%s R=%d N=%d P=%d W=%d", names[i], *R, *N, *Pn, *Wn)); err != nil {
 			return err
+		}
+		if d.realBalance && d.P > 1 {
+			// make sure the slow real paths are exercised at least once per behaviour
+			b = append(append([][2]string{{"BalanceRound", "1"}}, b...), [2]string{"CheckRound", "1"}, [2]string{"BalanceRound", "1"})
 		}
 		for _, l := range b {
 			var as []string
